@@ -4,7 +4,7 @@ from nauyaca.protocol.response import GeminiResponse
 
 from vf import CONCRETE, Ob, V, pick
 from vf.server import make, wire_response
-from vf.symbuf import Fill, SymBuf, TextBody, mk
+from vf.symbuf import Fill, SymBuf, TextBody, _small, mk
 from vf.tlsserver import feed, make_tls
 
 MAXFILE = 100 * 1024 * 1024
@@ -74,7 +74,7 @@ def tls_pump_large(w: int, kind: int) -> bool:
     """
     # very large bodies at concrete sizes (the pump loops once per 8192 bytes, so a symbolic length of this
     # magnitude would cost one solver query per iteration): a discrete dimension, chosen by symbolic index
-    total = BIG[w]
+    total = BIG[_small(w, len(BIG) - 1)]      # fork into a concrete size (a symbolic index would make the size an ite-term)
     resp, want = _resp(total, 7 if kind == 1 else 0, kind)
     outer, tcp, loop, conn, made = make_tls(lambda r: resp)
     feed(outer, tcp, [("hs",)])
